@@ -3,6 +3,8 @@ CMake and not a legacy form."""
 
 SAFE = list("abcxyzABC0189_-./:;=+*?!~%^&|,<>@'") + ["é", "日本", "✓", "ß"]
 ESC = ["\\ ", "\\(", "\\)", "\\#", '\\"', "\\\\", "\\$", "\\@", "\\^", "\;", "\\t", "\\n", "\\r", "\\[", "\\]", "\\{", "\\}", "\\'"]
+# characters that str.splitlines() treats as line boundaries but CMake does not
+ODD = ["\x0c", "\x0b", "\x1c", "\x1d", "\x1e", "\x85", "\u2028", "\u2029"]
 REFS = ["${x}", "$ENV{HOME}", "${${y}}", "${a_b}", "$<TARGET:x>", "$", "$CACHE{z}", "${x}${y}"]
 
 
@@ -66,14 +68,14 @@ def quoted(r):
         elif c < 0.93:
             out.append("\\\n")
         else:
-            out.append(r.choice(["é", "日本語", "✓"]))
+            out.append(r.choice(["é", "日本語", "✓"] + ODD))
     return '"' + "".join(out) + '"'
 
 
 def bracket(r):
     lvl = r.randint(0, 3)
     pieces = [" ", "a", "]", "[", "]]", "]=]", "]==]", "[[", "[=[", "\n", '"', "#", "(", ")", "\\", "\\n", "${x}", ";", "é", "x y",
-              "#[[", "]]]"]
+              "#[[", "]]]"] + ODD
     n = r.randint(0, 8)
     s = "".join(r.choice(pieces) for _ in range(n))
     close = "]" + "=" * lvl + "]"
@@ -106,7 +108,8 @@ def render_args(r, args, comments=True):
     for a in args:
         sep = r.choice([" ", " ", "  ", "\n", "\t", "\n    ", " \n"])
         if comments and r.random() < 0.15:
-            sep += r.choice(["# line comment ) \" (\n", "#[[ bracket ) comment ]] ", "#[=[ ]] \" ]=]\n", "#\n", "#[==x\n"])
+            sep += r.choice(["# line comment ) \" (\n", "#[[ bracket ) comment ]] ", "#[=[ ]] \" ]=]\n", "#\n", "#[==x\n",
+                             "# odd " + r.choice(ODD) + " set(phantom 1) \" (\n", "#[[ odd " + r.choice(ODD) + " ]] "])
         out.append(sep)
         if isinstance(a, list):
             out.append("(" + render_args(r, a, comments) + r.choice(["", " ", "\n"]) + ")")
